@@ -15,8 +15,9 @@
 **   raw63 raw64 raw65 raw72 raw100 raw127 raw128 raw129 raw200 raw300   big structs: first / last byte and
 **           the bytes on both sides of every 64-byte boundary varied (reduced grid, see vf_cmp.h)
 **
-** Parameters:  dom=all | comma list of int,float,string,type,raw     grid=small|large
+** Parameters:  dom=all | comma list of int,float,string,type,recycled,raw     grid=small|large
 **              (rawall = every raw* domain, rawbig = raw63 .. raw300)
+**              recycled = run-time record types created, deleted and re-created with another size (vf_cmp.h)
 **              replay="<dom> pair i j" | "<dom> triple i j k" | "<dom> triples i j"
 **                     | "<dom> tree|table <order>"
 **
@@ -378,6 +379,96 @@ static void run_domain(const char* name) {
   vf_extra(name, "{\"values\": %d, \"distinct\": %d, \"pairs\": %d, \"triples\": %" PRIu64 "}", n, ndistinct, n * n, (uint64_t)n * n * n);
 }
 
+/* ---- recycled run-time types (see vf_cmp.h) ------------------------------------------------
+**
+** Sub-families by the operation that is the very FIRST library call on objects of the new type:
+** 0 cmp, 1 eq, 2 gt.  In the first pass over the sizes the first pair differs only in its LAST
+** byte (a stale smaller size calls it equal), in the second pass it is a pair of equal values
+** with different bytes behind the objects (a stale larger size calls it unequal).  Then all 49
+** ordered pairs get the full pair oracle, on caller-block objects (stack and heap class) and
+** on exactly sized alloc_raw objects.
+*/
+static uint64_t rec_generations, rec_same_address;
+static const char* rec_family_name[] = { "cmp", "eq", "gt" };
+
+static void recycled_family(int fam, int upto) {
+  static char A[VFR_NVALS][VFR_BLOCK] __attribute__((aligned(16))), B[VFR_NVALS][VFR_BLOCK] __attribute__((aligned(16)));
+  uintptr_t prev_addr = 0; size_t prev_size = 0;
+  int G = 2 * VFR_NSIZES;
+  for (int g = 0; g < G && g <= upto; g++) {
+    size_t size = vfr_sizes[g % VFR_NSIZES];
+    int second_pass = (g / VFR_NSIZES) & 1;
+    const char* trans = prev_size == 0 ? "first-type" : size > prev_size ? "larger-than-previous" : "smaller-than-previous";
+    vf_set_cur("recycled %s %d | size=%zu previous size=%zu", rec_family_name[fam], g, size, prev_size);
+    char kase[96]; snprintf(kase, sizeof kase, "%s", vf_cur);
+    var T = vfr_type_new(g);
+    int same = prev_addr != 0 && (uintptr_t)T == prev_addr;
+    rec_generations++; if (same) rec_same_address++;
+    vf.executions++;
+    var a[VFR_NVALS], b[VFR_NVALS];
+    for (int v = 0; v < VFR_NVALS; v++) {
+      a[v] = vfr_obj(A[v], T, (g + v) & 1, size, v, 0xA5);
+      b[v] = vfr_obj(B[v], T, (g + v + 1) & 1, size, v, 0x5A);
+    }
+    /* the very first operation on the new type */
+    int fi = 0, fj = second_pass ? 0 : 5;
+    int r = vfr_ref(size, fi, fj);
+    vf.evaluations++;
+    if (fam == 0) {
+      int c = cmp(a[fi], b[fj]);
+      if (SIGN(c) != r) vf_violation(L(trans, r == 0 ? "first-cmp-nonzero-for-equal" : c == 0 ? "first-cmp-zero-for-unequal" : "first-cmp-sign"), kase,
+        "first cmp on a new %zu-byte run-time type (%s as the deleted %zu-byte type) = %d, values %s", size, same ? "same address" : "other address", prev_size, c, r ? "differ only in the last byte" : "are equal");
+    } else if (fam == 1) {
+      bool e = eq(a[fi], b[fj]);
+      if (e != (r == 0)) vf_violation(L(trans, "first-eq"), kase, "first eq on a new %zu-byte run-time type (%s as the deleted %zu-byte type) = %d, values %s", size, same ? "same address" : "other address", prev_size, (int)e, r ? "differ only in the last byte" : "are equal");
+    } else {
+      bool e = gt(a[fi], b[fj]);
+      if (e != (r > 0)) vf_violation(L(trans, "first-gt"), kase, "first gt on a new %zu-byte run-time type (%s as the deleted %zu-byte type) = %d, reference sign %d", size, same ? "same address" : "other address", prev_size, (int)e, r);
+    }
+    /* all ordered pairs */
+    for (int i = 0; i < VFR_NVALS; i++) for (int j = 0; j < VFR_NVALS; j++) {
+      int rr = vfr_ref(size, i, j);
+      int c = cmp(a[i], b[j]), c2 = cmp(b[j], a[i]);
+      vf.evaluations += 9;
+      if (SIGN(c) != rr) vf_violation(L(trans, rr == 0 ? "cmp-nonzero-for-equal" : c == 0 ? "cmp-zero-for-unequal" : "cmp-sign"), kase, "value %d vs value %d of a %zu-byte run-time type: cmp = %d, reference sign %d", i, j, size, c, rr);
+      if (SIGN(c2) != -SIGN(c)) vf_violation(L(trans, "antisymmetry"), kase, "value %d vs value %d: cmp(a,b) = %d, cmp(b,a) = %d", i, j, c, c2);
+      if (eq(a[i], b[j]) != (c == 0) || neq(a[i], b[j]) != (c != 0) || lt(a[i], b[j]) != (c < 0) || gt(a[i], b[j]) != (c > 0)
+       || le(a[i], b[j]) != (c <= 0) || ge(a[i], b[j]) != (c >= 0)) vf_violation(L(trans, "predicates"), kase, "value %d vs value %d: eq/neq/lt/gt/le/ge are not the predicates of cmp = %d", i, j, c);
+      if (i == j && cmp(a[i], a[i]) != 0) vf_violation(L(trans, "reflexive"), kase, "cmp(a,a) != 0");
+    }
+    /* exactly sized objects from the library's own allocator (a read past the struct is the sanitizer's to see) */
+    var x = alloc_raw(T), y = alloc_raw(T);
+    static const int probe[3][2] = { {0, 5}, {0, 0}, {6, 0} };
+    for (int q = 0; q < 3; q++) {
+      vfr_value(size, probe[q][0], x); vfr_value(size, probe[q][1], y);
+      int rr = vfr_ref(size, probe[q][0], probe[q][1]);
+      int c = cmp(x, y);
+      vf.evaluations++;
+      if (SIGN(c) != rr) vf_violation(L(trans, "alloc-raw-cmp-sign"), kase, "alloc_raw objects, value %d vs %d of a %zu-byte run-time type: cmp = %d, reference sign %d", probe[q][0], probe[q][1], size, c, rr);
+    }
+    del_raw(x); del_raw(y);
+    if (same && size != prev_size) vf.nontrivial++;
+    if (vf_want_sample()) vf_sample("%s (%s)", kase, same ? "type block recycled at the same address" : "type at a new address");
+    prev_addr = (uintptr_t)T; prev_size = size;
+    del_raw(T);
+  }
+}
+
+static void run_recycled(void) {
+  vf.phase = "cmp-recycled-type";
+  D.name = "recycled-type";
+  if (vf.replay) {
+    char dn[16], fam[16]; int g = -1;
+    if (sscanf(vf.replay, "%15s %15s %d", dn, fam, &g) != 3) return;
+    for (int f = 0; f < 3; f++) if (!strcmp(fam, rec_family_name[f])) recycled_family(f, g);
+    return;
+  }
+  vf_watchdog(120);
+  for (int f = 0; f < 3; f++) recycled_family(f, 1 << 30);
+  vf_extra("recycled_types", "{\"generations\": %" PRIu64 ", \"new_type_at_the_address_of_the_deleted_one\": %" PRIu64 "}", rec_generations, rec_same_address);
+  if (rec_same_address == 0) vf_note("recycled run-time types: the allocator never handed the deleted Type block back (sanitizer quarantine?); the same-address cases were NOT exercised in this instance and are not counted");
+}
+
 /* an uncaught Cello exception ends in exit(1): attribute it to the case in progress and keep the results */
 static void on_uncaught_exit(void) {
   char label[96];
@@ -395,7 +486,7 @@ int main(int argc, char** argv) {
   const char* doms = vf_param("dom", "all");
   if (vf.replay) {
     char dn[16];
-    if (sscanf(vf.replay, "%15s", dn) == 1) run_domain(dn);
+    if (sscanf(vf.replay, "%15s", dn) == 1) { if (!strcmp(dn, "recycled")) run_recycled(); else run_domain(dn); }
     vf_finish();
   }
   static const char* all[] = { "int", "float", "string", "type", "raw", "raw1", "raw3", "raw4", "raw7", "raw9", "raw12", "raw16", "raw20", "raw21", "raw63", "raw64", "raw65", "raw72", "raw100", "raw127", "raw128", "raw129", "raw200", "raw300" };
@@ -403,6 +494,7 @@ int main(int argc, char** argv) {
     if (!vfg_dom_selected(doms, all[q])) continue;
     run_domain(all[q]);
   }
+  if (vfg_dom_selected(doms, "recycled")) run_recycled();
   vf.states = 0;
   vf_finish();
   return 0;
